@@ -4,6 +4,18 @@ from harness import common, replay, trace, dom
 from harness.common import cps
 
 
+def _spelled(selmod, ast, rng):
+    """a random respelling of the AST (escapes, case of keywords, white space / comments): the document-type rules are about names and
+    values, not about how the selector is spelled"""
+    import random as _r
+    import zlib
+    selmod.SPELL = _r.Random(zlib.crc32(repr(ast).encode()) + common.SEED)
+    try:
+        return selmod.selector_list(ast)
+    finally:
+        selmod.SPELL = None
+
+
 def main(tier):
     chk = common.Check('C12', tier)
     chk.assumptions += ['CssDecl.ElemNsOk / AttrNsOk are the reading of CSS Namespaces 3 and the property statement',
@@ -67,7 +79,7 @@ def trace_part(chk, tier):
         root = min([i + 1 for i, (p, k) in enumerate(zip(d['parent'], d['kind'])) if p == 0 and k == 'e'] or [0])
         for mn, nsmap in enumerate(maps):
             for j, ast in enumerate(forms):
-                css = selmod.selector_list(ast)
+                css = _spelled(selmod, ast, rng if 'rng' in dir() else None)
                 ev = {'id': 'd%d.m%d.%d' % (dn, mn, j), 'doc': d, 'sel': ast,
                       'nsmap': [{'p': cps(p), 'u': cps(u)} for p, u in (nsmap or {}).items()], 'scope': root, 'target': 0, 'css': css}
                 try:
